@@ -93,6 +93,11 @@ theorem delivered_status_first (c : Cfg) (toks : List Tok) :
   · exact ⟨b, _, hbs, by omega, fun _ x hx => by simp at hx⟩
   · exact ⟨_, _, hbs, by omega, fun h => absurd rfl h⟩
 
+/-- if the input consists of bytes (`< 256`; the model's alphabet is all naturals), so does every message -/
+theorem delivered_bytes (c : Cfg) (toks : List Tok) (hb : ∀ b, Tok.byte b ∈ toks → b < 256) :
+    ∀ m ∈ listen c toks, ∀ bs, m.1 = some bs → ∀ x ∈ bs, x < 256 :=
+  listen_bytes c toks init (init_inv c) hb
+
 /-! ## the receiver rules -/
 
 /-- A status byte `0x80..0xF6` (everything but real-time and the sysex terminator) abandons whatever was in
@@ -142,24 +147,36 @@ theorem data_without_status_ignored (c : Cfg) (s : St) (b : Nat) (hm : s.mode = 
     (hb : b < 0x80) : step c s b = (s, []) :=
   step_data_no_status c s b hm hs hb
 
-theorem data_without_status_ignored_feed (c : Cfg) (s : St) (ds : List Nat) (hm : s.mode = .clean)
-    (hs : s.status = 0) (hds : ∀ d ∈ ds, d < 0x80) : feed c s (ds.map .byte) = (s, []) :=
-  feed_data_no_status c s ds hm hs hds
+/-- … for a whole run of data bytes, with real-time bytes and chunk boundaries anywhere in between: only the
+    real-time bytes are handed on, the decoder stays idle without running status -/
+theorem data_without_status_ignored_feed (c : Cfg) (s : St) (body : List Tok) (hm : s.mode = .clean)
+    (hs : s.status = 0) (hbody : ∀ t ∈ body, NonStatusTok t) :
+    (feed c s body).2.map Prod.fst = (rtBytes body).map (fun r => [r]) ∧
+    (feed c s body).1.mode = .clean ∧ (feed c s body).1.status = 0 ∧ (feed c s body).1.pend = s.pend := by
+  obtain ⟨a, b, d, e⟩ := feed_no_status_body c body s hbody hm hs
+  exact ⟨e, a, b, d⟩
 
 /-- the undefined status bytes F4 / F5 (from any state whatsoever) produce nothing, cancel running status,
-    and all data bytes that follow are ignored; the next status byte is handled by `new_status_abandons` -/
-theorem undefined_status_skipped (c : Cfg) (s : St) (b : Nat) (ds : List Nat) (hb : b = 0xF4 ∨ b = 0xF5)
-    (hds : ∀ d ∈ ds, d < 0x80) :
-    feed c s (.byte b :: ds.map .byte) = ((step c s b).1, []) ∧
-    (step c s b).1.mode = .unknown ∧ (step c s b).1.status = 0 ∧ (step c s b).1.pend = none := by
+    and all data bytes that follow are ignored (real-time bytes and chunk boundaries anywhere in between: only
+    the real-time bytes are handed on); the next status byte is handled by `new_status_abandons` -/
+theorem undefined_status_skipped (c : Cfg) (s : St) (b : Nat) (body : List Tok) (hb : b = 0xF4 ∨ b = 0xF5)
+    (hbody : ∀ t ∈ body, NonStatusTok t) :
+    (feed c s (.byte b :: body)).2.map Prod.fst = (rtBytes body).map (fun r => [r]) ∧
+    (feed c s (.byte b :: body)).1.mode = .unknown ∧ (feed c s (.byte b :: body)).1.status = 0 ∧
+    (feed c s (.byte b :: body)).1.pend = none := by
   obtain ⟨hf, hm, hst, hp⟩ := step_undefined c s b hb
-  refine ⟨?_, hm, hst, hp⟩
-  simp only [feed, stepTok, hf, List.nil_append, feed_unknown_data c _ ds hm hds]
+  obtain ⟨a, b', d, e⟩ := feed_unknown_body c body (step c s b).1 hbody hm
+  simp only [feed, stepTok, hf, List.nil_append]
+  exact ⟨e, a, by rw [b', hst], by rw [d, hp]⟩
+
+/-- in a state waiting after F4 / F5 a data byte changes nothing -/
+theorem undefined_status_data (c : Cfg) (s : St) (d : Nat) (hm : s.mode = .unknown) (hd : d < 0x80) :
+    step c s d = (s, []) := step_unknown_data c s d hm hd
 
 /-- A sysex whose total length (`F0`, data bytes, `F7`) exceeds the buffer size is never delivered — from any
     state whatsoever, with real-time bytes and chunk boundaries anywhere inside: the only frames are the
     interleaved real-time bytes, and the decoder is idle afterwards. -/
-theorem oversize_sysex_dropped (c : Cfg) (s : St) (body : List Tok) (hbody : ∀ t ∈ body, SysexBodyTok t)
+theorem oversize_sysex_dropped (c : Cfg) (s : St) (body : List Tok) (hbody : ∀ t ∈ body, NonStatusTok t)
     (hover : c.bufSize < dataCount body + 2) :
     (feed c s (.byte 0xF0 :: body ++ [.byte 0xF7])).2.map Prod.fst = (rtBytes body).map (fun r => [r]) ∧
     (feed c s (.byte 0xF0 :: body ++ [.byte 0xF7])).1.mode = .clean ∧
@@ -208,14 +225,25 @@ example : (feed cfg4 init (bytes [0x90, 0xF4, 0x01, 0x02, 0x03, 0xB0, 0x07, 0x64
 -- buffer of 4: `F0 01 02 F7` fits, `F0 01 02 03 F7` does not (real-time FE in between is delivered)
 example : listen cfg4 (bytes [0xF0, 1, 2, 0xF7]) = [(some [0xF0, 1, 2, 0xF7], 0)] := by decide
 example : listen cfg4 (bytes [0xF0, 1, 2, 0xFE, 3, 0xF7]) = [(some [0xFE], 0)] := by decide
-example : (∀ t ∈ bytes [1, 2, 0xFE, 3], SysexBodyTok t) ∧ cfg4.bufSize < dataCount (bytes [1, 2, 0xFE, 3]) + 2 := by
+example : (∀ t ∈ bytes [1, 2, 0xFE, 3], NonStatusTok t) ∧ cfg4.bufSize < dataCount (bytes [1, 2, 0xFE, 3]) + 2 := by
   refine ⟨fun t ht => ?_, by decide⟩
   simp only [bytes, List.map_cons, List.map_nil, List.mem_cons, List.not_mem_nil, or_false] at ht
-  rcases ht with rfl | rfl | rfl | rfl <;> simp [SysexBodyTok]
+  rcases ht with rfl | rfl | rfl | rfl <;> simp [NonStatusTok]
 -- default buffer (buf = 0 → 1024) and the smallest ones
 example : (⟨true, 0, true, true⟩ : Cfg).bufSize = 1024 := by decide
 example : listen ⟨true, 1, true, true⟩ (bytes [0xF0, 0xF7, 0x90, 1, 2]) = [(some [0x90, 1, 2], 0)] := by decide
 example : listen ⟨true, 2, true, true⟩ (bytes [0xF0, 0xF7, 0xF0, 1, 0xF7]) = [(some [0xF0, 0xF7], 0)] := by decide
+-- `delivered_bytes`: a stream of bytes
+example : ∀ b, Tok.byte b ∈ bytes [0x90, 0x3C, 0xFF] → b < 256 := by
+  intro b hb
+  simp only [bytes, List.map_cons, List.map_nil, List.mem_cons, Tok.byte.injEq, List.not_mem_nil, or_false] at hb
+  omega
+-- `undefined_status_skipped` / `data_without_status_ignored_feed`: data, real time and a tick in between
+example : (∀ t ∈ [Tok.byte 1, .tick 3, .byte 0xF8, .byte 2], NonStatusTok t) ∧
+    (feed cfg4 init (.byte 0xF5 :: [Tok.byte 1, .tick 3, .byte 0xF8, .byte 2])).2 = [([0xF8], 3)] := by
+  refine ⟨fun t ht => ?_, by decide⟩
+  simp only [List.mem_cons, List.not_mem_nil, or_false] at ht
+  rcases ht with rfl | rfl | rfl | rfl <;> simp [NonStatusTok]
 -- real time
 example : step cfg4 (feed cfg4 init (bytes [0x90, 0x3C])).1 0xF8 =
     ((feed cfg4 init (bytes [0x90, 0x3C])).1, [([0xF8], 0)]) := (realtime_transparent cfg4 _ 0xF8 (by omega)).1
